@@ -11,7 +11,7 @@ ID = "C39"
 #              Props/C39.v carries the refutations + the partial theorem.
 #   "fixed"  : Model/DecFloatFixed.v mirrors the repaired code (see the repair diff in the report);
 #              Props/C39Fixed.v carries the full theorems.
-VARIANT = "pinned"
+VARIANT = "fixed"
 VARIANT = os.environ.get("C39_VARIANT", VARIANT)   # override for trying the other model against a scratch repo
 # ---------------------------------------------------------------------------------------------
 
@@ -37,7 +37,7 @@ else:
 AXIOMS_OK = ["ClassicalDedekindReals.sig_not_dec", "ClassicalDedekindReals.sig_forall_dec",
              "FunctionalExtensionality.functional_extensionality_dep", "Classical_Prop.classic"]
 
-COQ_CASES_QUICK, COQ_CASES_THOROUGH, COQ_SHARD = 3200, 120000, 200
+COQ_CASES_QUICK, COQ_CASES_THOROUGH, COQ_SHARD = 2400, 120000, 200
 COQ_HEAVY_QUICK, COQ_HEAVY_THOROUGH = 32, 3000
 
 TRUSTED = ["hand-written Gallina model of Decimal.Float64 / pow5 over Flocq 4 (BinarySingleNaN, binary_float 53 1024, mode_NE)",
@@ -443,7 +443,7 @@ def gen_numerals(ctx):
         for e in range(-40, 41):
             out.append(("small-exhaustive", "%de%d" % (w, e)))
     # 2. short mantissas (1..16 digits), moderate exponents, mixed spellings
-    for _ in range(B(3000, 60000)):
+    for _ in range(B(2000, 60000)):
         digs = rand_digits(rng, rng.range(1, 16))
         out.append(("short", decorate(sci(digs, rng.range(-45, 45), rng), rng)))
     # 3. around the 2^53 and 2^64 guards
@@ -453,11 +453,11 @@ def gen_numerals(ctx):
         e = rng.choice([0, 0, 1, -1, 22, -22, 23, -23, rng.range(-330, 310)])
         out.append(("guards", "%de%d" % (w, e)))
     # 4. 17..40 digit mantissas
-    for _ in range(B(2500, 50000)):
+    for _ in range(B(1500, 50000)):
         digs = rand_digits(rng, rng.range(17, 40))
         out.append(("long", decorate(sci(digs, rng.range(-360, 330), rng), rng)))
     # 5. any exponent, short mantissa (the multi-table fast path)
-    for _ in range(B(3000, 80000)):
+    for _ in range(B(2000, 80000)):
         digs = rand_digits(rng, rng.range(1, 16))
         out.append(("wide-exponent", sci(digs, rng.range(-345, 312), rng)))
     # 6. extreme exponents
